@@ -56,7 +56,7 @@ def check_undirected(item, acc):
     outs = set()
     moved = 0
     try:
-        for script, res, ch, pruned in CH.explore(run, budgets={"np.randint": 2 * (n_steps + R)}):
+        for script, res, ch, pruned in acc.explore(run, budgets={"np.randint": 2 * (n_steps + R)}):
             acc.evaluations += 1
             if pruned:
                 acc.count("undirected-pruned-redraw-budget")
@@ -157,7 +157,7 @@ def check_directed(item, acc):
 
     outs = set()
     try:
-        for script, res, ch, pruned in CH.explore(run, max_dev=D):
+        for script, res, ch, pruned in acc.explore(run, max_dev=D):
             acc.evaluations += 1
             E_out = list(res.get_edges())
             outs.add(tuple(sorted(E_out)))
@@ -261,7 +261,7 @@ def run(ctx):
     items = un + di
     k = ctx.jobs * 8
     shards = [items[i::k] for i in range(k)]
-    ev, nt, oc = run_e4(ctx, [it for s in shards for it in s], worker, nchunks=k)
+    ev, nt, oc = run_e4(ctx, [it for s in shards for it in s], worker, nchunks=k, budget=40000000 if ctx.tier == "quick" else 800000000, config_cap=60000 if ctx.tier == "quick" else 1200000)
     ctx.part("inputs", undirected_configurations=len(un), directed_inputs=len(di), executions=ev)
     nu = ctx.counts.get("undirected-configs", 0)
     nd = ctx.counts.get("directed-configs", 0)
@@ -275,7 +275,8 @@ def run(ctx):
     ctx.sample({"directed": {"edges": [repr(e) for e in d[0]], "max_effective_proposals": d[1]}})
     cov = {
         "seam_validation": seam_report,
-        "states": len(oc), "transitions": ev, "traces_validated_against_impl": ev, "evaluations": ev, "distinct_nontrivial": len(nt), "exhaustive": True,
+        "states": len(oc), "transitions": ev, "traces_validated_against_impl": ev, "evaluations": ev, "distinct_nontrivial": len(nt), "exhaustive": not (ctx.counts.get("configurations-capped-by-budget", 0) or ctx.counts.get("configurations-skipped-budget-exhausted", 0)),
+        "configurations_capped_or_skipped_by_execution_budget": ctx.counts.get("configurations-capped-by-budget", 0) + ctx.counts.get("configurations-skipped-budget-exhausted", 0),
         "pruned_at_redraw_budget": ctx.counts.get("undirected-pruned-redraw-budget", 0),
         "rule": "undirected: every input with 2-3 hyperedges of size 2-3 over 4 (5) nodes x n_steps 0..2 (3) x label edge/stub x detailed T/F x size/order "
                 "restriction; FULL tree of random answers: every ordered proposal pair, every reshuffle coin; the same-size redraw loop is cut by a call budget "
